@@ -29,12 +29,15 @@ def gen_task_cases(ctx):
     return cases
 
 
-NAMES = {1: "ok1", 2: "ok2", 3: "bad", 4: "pok", 5: "pbad", 6: "allowbad", 7: "ppar", 8: "ptol", 9: "flaky", 10: "pgate"}
+NAMES = {1: "ok1", 2: "ok2", 3: "bad", 4: "pok", 5: "pbad", 6: "allowbad", 7: "ppar", 8: "ptol", 9: "flaky", 10: "pgate", 11: "pgatetol"}
 # what a target leaves in the trace file; ptol is a pipeline whose only stage runs `flaky` with allow_failure (the pipeline succeeds; the
 # task itself stays a failing task: target 9); pgate is a pipeline one of whose stages has a condition that cannot be evaluated: it
 # fails, leaves no token, and is recognised by the scheduler's error message
-TOKEN = {1: "ok1", 2: "ok2", 3: "bad", 4: "pok", 5: "pbad", 6: "allowbad", 7: "ppar", 8: "flaky", 9: "flaky", 10: None}
-BAD = [3, 5, 7, 9, 10]
+# pgatetol: the same with allow_failure on that stage: the pipeline is not failed (the existing TestConditionErroredStage wants that), but the
+# scheduler has cancelled the runner, so every LATER target is refused (`context canceled`): it did not succeed, the process must fail.
+# Such a refused target is judged as pseudo-target 12.
+TOKEN = {1: "ok1", 2: "ok2", 3: "bad", 4: "pok", 5: "pbad", 6: "allowbad", 7: "ppar", 8: "flaky", 9: "flaky", 10: None, 11: None, 12: None}
+BAD = [3, 5, 7, 9, 10, 12]
 NOCMD = "/nonexistent/verif-no-such-command"
 
 
@@ -54,17 +57,18 @@ def cli_cases(ctx):
                       # a failure followed by parallel stages that succeed LATER: the pipeline still failed
                       "ptol": [{"task": "flaky", "allow_failure": True}, {"task": "s1", "depends_on": ["flaky"]}],
                       "pgate": [{"task": "s1", "condition": NOCMD}],
+                      "pgatetol": [{"task": "s1", "condition": NOCMD, "allow_failure": True}],
                       "ppar": [{"task": "pparm"}, {"task": "qfail", "depends_on": ["pparm"]}, {"task": "slowok", "depends_on": ["pparm"]}, {"task": "slowok2", "depends_on": ["pparm"]}]}}
     jobs = []
     seqs = []
     for k in (1, 2, 3):
-        seqs += list(itertools.product([1, 2, 3, 4, 5, 6, 7, 8, 9, 10], repeat=k))
+        seqs += list(itertools.product([1, 2, 3, 4, 5, 6, 7, 8, 9, 10, 11], repeat=k))
     # a pipeline target is named at most once per command line: the statuses of a graph are never reset, so a second
     # run of the same graph object does nothing (recorded in DESIGN.md section 7 as outside the properties)
-    seqs = [s for s in seqs if all(s.count(p) <= 1 for p in (4, 5, 7, 8, 10))]
+    seqs = [s for s in seqs if all(s.count(p) <= 1 for p in (4, 5, 7, 8, 10, 11)) and not (10 in s and 11 in s)]     # (10 and 11 are told apart by position only)
     rng = vlib.rng_for(ctx.seed, "C07cli")
     if ctx.tier != "thorough":
-        seqs = [s for s in seqs if len(s) <= 2] + [(8, 9, 1), (8, 9, 2), (1, 8, 9), (10, 1, 2), (1, 10, 2), (8, 10, 1)] + rng.sample([s for s in seqs if len(s) == 3], 80)
+        seqs = [s for s in seqs if len(s) <= 2] + [(8, 9, 1), (8, 9, 2), (1, 8, 9), (10, 1, 2), (1, 10, 2), (8, 10, 1), (11, 1, 2), (1, 11, 2), (11, 6, 1)] + rng.sample([s for s in seqs if len(s) == 3], 80)
     for s in seqs:
         forms = ["root", "run"] + (["runtask"] if all(t in (1, 2, 3, 6, 9) for t in s) else [])
         for form in (forms if ctx.tier == "thorough" or len(s) <= 2 else [rng.choice(forms)]):
@@ -120,21 +124,28 @@ def run(ctx):
             continue
         toks = (r["files"].get("trace") or "").split()
         gate_ran = NOCMD in (r.get("err") or "")
+        refused = "context canceled" in (r.get("err") or "")
+        jt = list(j["targets"])
+        if 11 in jt:
+            k11 = jt.index(11)
+            jt = jt[:k11 + 1] + [12] * (len(jt) - k11 - 1)
         ran, ti = [], 0
-        for t in j["targets"]:          # the targets that ran, read off the trace (tokens in command-line order) and the scheduler's message
+        for t in jt:          # the targets that ran, read off the trace (tokens in command-line order) and the scheduler's / runner's messages
             if TOKEN[t] is None:
-                if not gate_ran:
+                if not (refused if t == 12 else gate_ran):
                     break
                 ran.append(t)
+                if t == 12:          # one message tells that the next target was refused; nothing can be read off it about later ones
+                    break
             elif ti < len(toks) and toks[ti] == TOKEN[t]:
                 ran.append(t)
                 ti += 1
             else:
                 break
         ran += [99] * (len(toks) - ti)          # anything else in the trace: a target that must not have run, or a command after a failing one
-        if gate_ran and 10 not in ran:
+        if gate_ran and 10 not in ran and 11 not in ran:
             ran.append(98)
-        items.append("(%d%%N, targets_ok %s %s %s %d)" % (j["id"], vlib.clist(BAD), vlib.clist(j["targets"]), vlib.clist(ran), r["rc"]))
+        items.append("(%d%%N, targets_ok %s %s %s %d)" % (j["id"], vlib.clist(BAD), vlib.clist(jt), vlib.clist(ran), r["rc"]))
         if len(j["targets"]) >= 2:
             res.nontrivial_keys.add(json.dumps([j["targets"], j["form"]]))
     badcli = set()
